@@ -290,7 +290,7 @@ def r_C28b_C33b_C30bc(root):
     out = []; inst = 0
     t = load(root, M)
     # C28.b: raise sites carry filename+line+col
-    SITES = [("get_model_parser.TextXModelParser._parse", "TextXSyntaxError"), ("ReferenceResolver.resolve_one_step", "UNKNOWN_OBJ_ERROR"), ("parse_tree_to_objgraph", "Unresolvable cross references")]
+    SITES = [("ReferenceResolver.resolve_one_step", "UNKNOWN_OBJ_ERROR"), ("parse_tree_to_objgraph", "Unresolvable cross references")]
     for q, marker in SITES:
         if marker == "Unresolvable cross references":
             rs = RS.unresolved_raises(root)[2]
@@ -303,6 +303,37 @@ def r_C28b_C33b_C30bc(root):
             kws = {k.arg for k in r.exc.keywords} if isinstance(r.exc, ast.Call) else set()
             miss = {"line", "col", "filename"} - kws
             if miss: out.append(Finding("C28", "C28.b", M, q.split(".")[-1], " ".join(ast.unparse(r).split())[:90], "error raised without %s" % sorted(miss)))
+    # C28.g  the syntax error of a failed parse, by evaluation of TextXModelParser._parse (exception classes interpreted too)
+    from sa import pyeval as _pe0
+    pf = find(t, "get_model_parser.TextXModelParser._parse"); xt = load(root, "textx/exceptions.py")
+    xcds = {c.name: c for c in xt.body if isinstance(c, ast.ClassDef)}
+    if "TextXSyntaxError" not in xcds: raise AnalysisError("exceptions.py: TextXSyntaxError not found")
+    def _nomatch():
+        e = {".kind": "NoMatch", ".__complete__": "all", ".rules": ["rule-a", "rule-b"], ".parser": {".kind": "parser", ".file_name": "input.file", ".__complete__": "all"}}
+        def eval_attrs(): e.update({".message": "Expected 'x' at position ...", ".line": 7, ".col": 3, ".context": "ab*cd", ".position": 40})
+        e[".eval_attrs"] = _pe0.PyFn(eval_attrs); return e
+    def _failing(nm):
+        def parse(*a, **k):
+            r_ = _pe0.Raised("NoMatch"); r_.value = nm; raise r_
+        return parse
+    for what, raises in (("the input does not match", True), ("the input matches", False)):
+        inst += 1; nm = _nomatch(); tree_ = {".kind": "parse tree"}
+        self_ = {".kind": "parser", ".file_name": "other.file", ".parser_model": {".parse": _pe0.PyFn(_failing(nm) if raises else (lambda *a, **k: tree_))}}
+        env = {"__classdefs__": xcds, "__functions__": {k_: v_ for k_, v_ in helper_functions(root, M, "get_model_parser.TextXModelParser._parse").items() if k_ not in ("_parse",)}, pf.args.args[0].arg: self_, "TextXSyntaxError": _pe0.ClassRef("TextXSyntaxError"),
+               "TextXError": _pe0.ClassRef("TextXError"), "TextXSemanticError": _pe0.ClassRef("TextXSemanticError")}
+        try: k_, v_ = "ret", _pe0.run_block(pf.body, env)
+        except _pe0.Raised as r_: k_, v_ = "raise", r_
+        except _pe0.Unsupported as u_: raise AnalysisError("_parse: outside the evaluated subset: %s" % u_)
+        if raises:
+            ev = v_.value if k_ == "raise" else None
+            g = (lambda a: ev.get("." + a)) if isinstance(ev, dict) else (lambda a: None)
+            okp = k_ == "raise" and v_.cls == "TextXSyntaxError" and (g("line"), g("col"), g("filename"), g("message"), g("context")) == (7, 3, "input.file", "Expected 'x' at position ...", "ab*cd") and g("expected_rules") == ["rule-a", "rule-b"]
+            ob("C28", "C28.g", M, "TextXModelParser._parse", "a NoMatch becomes a TextXSyntaxError with its message, line, col, file, context and expected rules", okp)
+            if not okp: out.append(Finding("C28", "C28.g", M, "TextXModelParser._parse", "NoMatch -> TextXSyntaxError", "a failed parse (NoMatch at line 7, col 3 of input.file) %s; documented: TextXSyntaxError with message, line 7, col 3, filename of the parser that reported it, context and expected rules of the NoMatch" % (("raises %s with line=%r col=%r filename=%r message=%r context=%r expected_rules=%r" % (v_.cls, g("line"), g("col"), g("filename"), g("message"), g("context"), g("expected_rules"))) if k_ == "raise" else "returns %r" % (v_,))))
+        else:
+            okp = k_ == "ret" and v_ is tree_
+            ob("C28", "C28.g", M, "TextXModelParser._parse", "a successful parse returns the parse tree", okp)
+            if not okp: out.append(Finding("C28", "C28.g", M, "TextXModelParser._parse", "successful parse", "a successful parse %s; documented: the parse tree" % ("raises " + v_.cls if k_ == "raise" else "returns something else")))
     pv = find(load(root, "textx/scoping/providers.py"), "PlainName.__call__")
     for r in [r for r in ast.walk(pv) if isinstance(r, ast.Raise) and "not unique" in ast.unparse(r)]:
         inst += 1
@@ -347,22 +378,7 @@ def r_C28b_C33b_C30bc(root):
     def _raise_orig(o): raise orig
     k, v = _run_wrapper(located, _raise_orig)
     rep33(k == "raise" and v is orig and orig.value == before_, "a TextXError of the processor passes unchanged", "a processor raising TextXSemanticError: the wrapper %s; documented: the very same error is re-raised (its own location and type are kept)" % (("changes its location fields to %s" % {f_: orig.value.get("." + f_) for f_ in ("line", "col", "filename")} if v is orig else "raises another error (%s)" % v.cls) if k == "raise" else "returns"))
-    # C30.b/c
-    G = "textx/cli/generate.py"; g = load(root, G); gen = find_i(root, G, "generate.generate.generate")
-    inst += 2
-    gcall = next((c for c in calls(gen) if ast.unparse(c.func) == "generator.generator"), None)
-    checks = [s for s in ast.walk(gen) if isinstance(s, ast.Raise) and "TextXError" in ast.unparse(s)]
-    mand = [s for s in checks if any("arg.mandatory" in ast.unparse(x) and "not in given_args" in ast.unparse(x) for x, pol in guards(s) if pol)]
-    undecl = [s for s in checks if any("not in generator_arg_names" in ast.unparse(x) for x, pol in guards(s) if pol)]
-    if not mand or (gcall and mand[0].lineno > gcall.lineno): out.append(Finding("C30", "C30.b", G, "generate", "mandatory argument check", "missing mandatory generator argument is not rejected before the generator runs"))
-    if not undecl or (gcall and undecl[0].lineno > gcall.lineno): out.append(Finding("C30", "C30.b", G, "generate", "undeclared argument check", "undeclared generator argument is not rejected before the generator runs"))
-    for rel, q in ((G, "generate.generate"), ("textx/cli/check.py", "check.check")):
-        fn = find(load(root, rel), q)
-        for h in [h for tr in own_nodes(fn) if isinstance(tr, ast.Try) for h in tr.handlers]:
-            inst += 1
-            last = h.body[-1]
-            if not (isinstance(last, ast.Expr) and ast.unparse(last.value) == "sys.exit(1)"): out.append(Finding("C30", "C30.c", rel, q.split(".")[-1], "except %s" % ast.unparse(h.type), "error handler does not end in exit status 1"))
-            if not any(callee_name(c) == "error" and "str(e)" in ast.unparse(c) for c in calls(h)): out.append(Finding("C30", "C30.c", rel, q.split(".")[-1], "except %s" % ast.unparse(h.type), "error message is not reported"))
+    # C30.b/c (validation before the generator call, exit status of the handlers) are decided by evaluation: C30.g / C30.d (sa/rules/c29.py)
     return inst, out
 def r_C03de_C11a_C17bc(root):
     out = []; inst = 0
